@@ -100,7 +100,8 @@ Proof. reflexivity. Qed.
 Definition check1 (c : c10case) : list N :=
   match c with
   | C10Case m limit debug obs disasm =>
-      if negb (module_in_domain m) then [3]
+      if negb (module_in_domain m
+               && program_in_range m {| o_recursion_limit := limit; o_debug := debug |}) then [3]
       else
         let sp := spec_codes obs disasm in
         match model_diff c with
